@@ -666,7 +666,8 @@ RETHREAD_PAIRS = [[4, 2], [2, 4], [1, 16], [3, 0], [10, 1]]
 
 def check_rethread(ctx, c, r, st):
     if r is None or 'crash' in r or 'runner' in r:
-        ctx.violation('C04/rethread/crash', 'the process died after the thread count was changed through the setter '
+        tag = '+'.join(f'{a}->{b}' for a, b in c['pairs'])
+        ctx.violation(f'C04/rethread/{tag}/crash', 'the process died after the thread count was changed through the setter '
                       '(old -> new, simulate, calculate_likelihood)', witness(c, pairs=c['pairs']), 'the same total', r, HOW)
         return
     n = r['n']
@@ -787,20 +788,23 @@ def stream_ll(ctx, only=None, n_cases=None, with_partition=True):
         cases = only
     else:
         cases = load_corpus()
-        ngen = n_cases if n_cases is not None else ctx.n(70, 1200)
+        ngen = n_cases if n_cases is not None else ctx.n(48, 1000)
         cases += [gen_case(rng, i) for i in range(ngen)]
         # every size from 1 to 12 at least once (small tables exercise T > n)
         cases += [gen_case(rng, 10000 + n, n=n) for n in range(1, 13)]
         for i in range(ctx.n(2, 8)):
             base = gen_case(rng, 20000 + i, n=rng.choice([5, 10, 11, 16, 23]))
-            cases.append({'kind': 'rethread', 'id': f'rt{i}', 'pairs': RETHREAD_PAIRS + [[rng.randint(1, 20), rng.randint(0, 20)] for _ in range(2)],
-                          **{k: base[k] for k in ('scale', 'model', 'betas', 'weight', 'cols')}})
+            for j, pr in enumerate(RETHREAD_PAIRS + [[rng.randint(1, 20), rng.randint(0, 20)] for _ in range(2)]):
+                cases.append({'kind': 'rethread', 'id': f'rt{i}.{j}', 'pairs': [pr],
+                              **{k: base[k] for k in ('scale', 'model', 'betas', 'weight', 'cols')}})
         cases += [gen_bootstrap_case(rng, i) for i in range(ctx.n(2, 6))]
     t0 = time.time()
     # rethread / bootstrap cases first and in chunks of their own (a reverted fix kills the process / is slow)
-    special = [c for c in cases if c['kind'] != 'table']
+    special = [c for c in cases if c['kind'] == 'rethread'] + [c for c in cases if c['kind'] == 'bootstrap']
     tables = [c for c in cases if c['kind'] == 'table']
-    res_special = ctx.impl_cases('c04_ll.py', special, chunk=1, timeout=600) if special else []
+    nrt = sum(1 for c in special if c['kind'] == 'rethread')
+    res_special = (ctx.impl_cases('c04_ll.py', special[:nrt], chunk=3, timeout=600) if nrt else []) + \
+                  (ctx.impl_cases('c04_ll.py', special[nrt:], chunk=1, timeout=600) if special[nrt:] else [])
     res_tables = ctx.impl_cases('c04_ll.py', tables, chunk=max(1, min(12, len(tables) // 16 + 1)), timeout=900) if tables else []
     part_items = []
     for c, r in zip(tables, res_tables):
